@@ -42,6 +42,9 @@ Definition d_roas (simple : list N) (aggr : list (N * list N)) : roas :=
 Definition aggr_view (l : list (N * rinfo)) : list (N * list N) := map (fun '(a, i) => (a, isort (ri_auths i))) l.
 Definition sorted_view (l : list (N * list N)) : list (N * list N) := map (fun '(a, x) => (a, isort x)) l.
 
+(** The renewal of a key-roll activation is modelled as the tree has it ([renewal]: nothing filtered, finding F04c).
+    If the repair proposed for F04c is committed, [renewal_fixed (tbl (d_res d)) id id (fun _ _ => dummy) (d_cert d) r]
+    is the model of the repaired code ([d_cert] of a renewal step is the NEW key's certificate). *)
 Definition d_model_updates (d : dcase) : option rupd :=
   let r := d_roas (d_pre_simple d) (d_pre_aggr d) in
   if d_renew d then Some (renewal id id (fun _ _ => dummy) r)
